@@ -21,6 +21,14 @@ i128 poly_linf(const Poly& c) {
 }
 
 int64_t input_value(int pattern, int bits, uint64_t dseed, int nnz, uint64_t total, uint64_t idx) {
+  if (pattern == PAT_INT64_EDGE) {
+    // the extremes of the int64 range (NTT120 inputs: any signed 64-bit coefficient is in the domain)
+    static const int64_t edge[8] = {INT64_MIN, INT64_MAX, INT64_MIN + 1, INT64_MAX - 1, -(INT64_C(1) << 62), (INT64_C(1) << 62), -1, 0};
+    const uint64_t hh = mix64(dseed ^ 0xED6E, idx);
+    if ((hh & 3) == 0) return (int64_t)mix64(dseed, idx);  // anything
+    if ((hh & 3) == 1) return INT64_MIN + (int64_t)((hh >> 8) & 0xFFFFFFFFFFFFull);  // the lowest 2^48 values
+    return edge[(hh >> 2) & 7];
+  }
   if (bits <= 0) return 0;
   if (bits > 62) bits = 62;
   const uint64_t h = mix64(dseed, idx);
